@@ -701,6 +701,17 @@ int gd_hide(DIRFILE *D, const char *field_code) gd_nothrow
     else if (!(E->flags & GD_EN_HIDDEN)) {
       E->flags |= GD_EN_HIDDEN;
       D->fragment[E->fragment_index].modified = 1;
+
+      /* Invalidate the field lists of the containing list */
+      if (E->e->n_meta == -1) {
+        if (E->e->p.parent) {
+          E->e->p.parent->e->fl.entry_list_validity = 0;
+          E->e->p.parent->e->fl.value_list_validity = 0;
+        }
+      } else {
+        D->fl.entry_list_validity = 0;
+        D->fl.value_list_validity = 0;
+      }
     }
   }
 
@@ -748,6 +759,17 @@ int gd_unhide(DIRFILE *D, const char *field_code) gd_nothrow
     else if (E->flags & GD_EN_HIDDEN) {
       E->flags &= ~GD_EN_HIDDEN;
       D->fragment[E->fragment_index].modified = 1;
+
+      /* Invalidate the field lists of the containing list */
+      if (E->e->n_meta == -1) {
+        if (E->e->p.parent) {
+          E->e->p.parent->e->fl.entry_list_validity = 0;
+          E->e->p.parent->e->fl.value_list_validity = 0;
+        }
+      } else {
+        D->fl.entry_list_validity = 0;
+        D->fl.value_list_validity = 0;
+      }
     }
   }
 
